@@ -93,6 +93,8 @@ func suiteC06Render(cfg Config, res *Result) {
 	defer c06CommentForms(res)
 	defer optionSteps(res, "render", "c06-options-after-compile")
 	defer c06Loaders(res)
+	defer bytesBelongToCaller(res, "render", "c06-bytes-owner")
+	defer c14NestedWriters(res)
 	res.Rule = "direct oracles on the implementation: (a) random delimiter-free byte strings up to 4 KiB render to themselves; (b) verbatim blocks with arbitrary bodies (incl. empty, delimiters, invalid UTF-8) render the body; (c) {# #} and comment tags render nothing and never evaluate their content; (d) sequences of independent fragments render to the concatenation of their own renderings; (e) templatetag emits the named delimiter; (f) FromBytes (the caller's buffer overwritten after compilation), FromFile, FromCache, ExecuteWriter and an include of the source (both after a rendering that failed half-way) give what FromString + Execute give. Non-trivial = source with a non-ASCII/control byte or >= 2 fragments; distinct by source"
 	rng := NewRNG(cfg.Seed)
 	nText, nSeq := 4000, 6000
